@@ -539,54 +539,23 @@ func c04NoFalseEOF(w *World, r *Report) {
 	}
 	eof := xutilsTok(w, "EOF")
 	n := 0
-	for _, b := range f.Blocks {
-		ret, ok := b.Instrs[len(b.Instrs)-1].(*ssa.Return)
-		if !ok || len(ret.Results) != 1 {
-			continue
-		}
-		ex, ok := ret.Results[0].(*ssa.Extract)
-		if !ok {
+	if len(ssaLoops(f)) > 0 {
+		panic(undecided{"CommonLex.Next: loop"})
+	}
+	sym := NewSym(w)
+	for _, row := range sym.retTable(f, 0) {
+		ex, ok := row.val.(*ssa.Extract)
+		if !ok || ex.Index != 0 {
 			continue
 		}
 		if c, ok := ex.Tuple.(*ssa.Call); !ok || c.Call.StaticCallee() == nil || c.Call.StaticCallee().String() != "unicode/utf8.DecodeRune" {
 			continue
 		}
 		n++
-		excluded := false
-		for _, b2 := range f.Blocks {
-			iff, ok := b2.Instrs[len(b2.Instrs)-1].(*ssa.If)
-			if !ok {
-				continue
-			}
-			bo, ok := iff.Cond.(*ssa.BinOp)
-			if !ok || bo.X != ssa.Value(ex) {
-				continue
-			}
-			k, ok := bo.Y.(*ssa.Const)
-			if !ok || k.Value == nil {
-				continue
-			}
-			if v, _ := constant.Int64Val(constant.ToInt(k.Value)); v != eof {
-				continue
-			}
-			var succ *ssa.BasicBlock
-			switch bo.Op {
-			case token.EQL:
-				succ = b2.Succs[1]
-			case token.NEQ:
-				succ = b2.Succs[0]
-			}
-			if succ != nil && (succ == b || succ.Dominates(b)) {
-				// every path into b must come through that successor: b's other predecessors must also exclude it
-				excluded = true
-				for _, p := range b.Preds {
-					if !(p == b2 || succ.Dominates(p) || succ == b) {
-						excluded = false
-					}
-				}
-			}
-		}
-		r.Check(excluded, "R04.20", "CommonLex.Next returns the decoded rune", ret.Pos(), "only after the rune was tested against the end marker", "a NUL character in the expression is returned as xutils.EOF: everything after it is ignored (or it silently vanishes from the look-ahead slot), so strings with a stray NUL are accepted")
+		// the values the decoded rune can have on this way out
+		vals, decided := pcValuesWhen(row.cond, sym.Key(ex, nil))
+		excluded := decided && !vals.contains(eof)
+		r.Check(excluded, "R04.20", "CommonLex.Next returns the decoded rune", row.pos, "only after the rune was tested against the end marker", "a NUL character in the expression is returned as xutils.EOF: everything after it is ignored (or it silently vanishes from the look-ahead slot), so strings with a stray NUL are accepted")
 	}
 	if n == 0 {
 		panic(undecided{"CommonLex.Next: return of the decoded rune not found"})
